@@ -15,7 +15,8 @@
    the consumer lemma additionally covers all 150 (region, attach state, length
    class) views, truthful or not.  [kept o t r]: r is the region of a kept
    string / []byte leaf, i.e. keep o t f b for a driver-produced view b and a
-   flow f, or the Raw flow on the recorded view. *)
+   flow f, or the Raw flow on the recorded view, or a leaf kept by the side (bytes)
+   Decoder that decodes a SelfExt extension from the extension's payload. *)
 From Coq Require Import List ZArith NArith Bool Arith.
 From Verif Require Import Gen.Consts C13.Model C13.Proofs.
 Import ListNotations.
@@ -89,6 +90,14 @@ Theorem C13_zerocopy_views : forall i fm l b f,
   keep (mkopts true i) TBytes f b = Input.
 Proof. exact zerocopy_views_lemma. Qed.
 Print Assumptions C13_zerocopy_views.
+
+(* SelfExt: the side Decoder's input is never reader-buffer memory when its results can be views of it *)
+Theorem C13_side_input : forall o t,
+  side_input o t = Input /\ is_bytes t = true
+  \/ side_input o t = Fresh /\ zerocopy o = true /\ is_bytes t = false
+  \/ side_input o t = ReaderBuf /\ zerocopy o = false /\ is_bytes t = false.
+Proof. exact side_input_lemma. Qed.
+Print Assumptions C13_side_input.
 
 (* trivial in Gallina (a function has no state to disturb); the content is in the tie *)
 Theorem C13_pure : forall (V : Type) (enc : V -> list N) (v : V), fst (encode_model enc v) = v.
